@@ -76,7 +76,7 @@ Alu(op, x, y) ==
   CASE op = "cpy" -> y
     [] op = "add" -> (x + y) % Mod
     [] op = "sub" -> (x + Mod - y) % Mod
-    [] op = "mult" -> (x * y) % Mod
+    [] op = "mult" -> (x * (y % 256) + ((x * (y \div 256)) % Mod) * 256) % Mod    \* (no intermediate beyond 2^31)
     [] op = "and" -> x & y
     [] op = "or" -> x | y
     [] op = "xor" -> x ^^ y
